@@ -347,7 +347,8 @@ def vec_getattr(M, interp, v, name, node):
         return out
     if name == 'data':
         if v.kind == 'ma':
-            return v.view(list(v.idx), kind='nd') if False else Vec.fresh([El(e.d, False) for e in v.els()], kind='nd', dtype=v.dtype, unit=v.unit)
+            # library fact: `.data` is a view of the same memory (writes through it change the values and leave the mask alone)
+            return v.view(list(v.idx), kind='nd', dview=True)
         if v.kind == 'nd':
             return v
         raise AbsRaise(ExcVal('AttributeError', ('data',)), node)
@@ -1001,7 +1002,19 @@ def register(M):
         """ndarray.view(dtype): the same memory read as another dtype.  Modelled: no dtype (alias), the same dtype, and the 8-byte
         integer behind datetime64 / timedelta64 (the count of the array's *own unit*), which is where unit assumptions show."""
         d = args[0] if args else kw.get('dtype')
-        if d is None:
+        if d is None and 'type' not in kw:
+            return v.view(list(v.idx))
+        t = kw.get('type', d)
+        if isinstance(t, ExtRef) and t.path in ('numpy.ma.MaskedArray', 'numpy.ma.masked_array', 'numpy.ma.core.MaskedArray'):
+            # ndarray.view(MaskedArray): a masked array (mask = nomask) over the same memory; the plain array stays its data
+            if v.kind == 'ma':
+                return v.view(list(v.idx))
+            if v.kind != 'nd' or any(e.m is not False for e in v.els()):
+                raise AnalysisError('view as MaskedArray of this array not modelled', node)
+            out = v.view(list(v.idx), kind='ma', dview=False)
+            v.dview = True
+            return out
+        if isinstance(t, ExtRef) and t.path == 'numpy.ndarray' and v.kind == 'nd':
             return v.view(list(v.idx))
         code, unit = parse_dtype(interp, d, node)
         if code == v.dtype and (unit in (None, 'generic') or unit == v.unit):
@@ -1203,12 +1216,26 @@ def register(M):
     E['numpy.isfinite'] = unary_ufunc(lambda d: X.FALSE if d == X.NAN else (X.UNK if d == X.ANY else X.TRUE), out_dtype='b1')
     E['numpy.logical_not'] = unary_ufunc(lambda d: X.f_not(bool_of_el(d)), out_dtype='b1')
 
-    def binary_ufunc(fn_expr, out_dtype=None, boolean=False):
+    def binary_ufunc(fn_expr, out_dtype=None, boolean=False, arith=None):
         def f(interp, args, kw, node):
             from .models_np import broadcast, result_kind
+            if len(args) > 2 or any(k in kw for k in ('out', 'where', 'dtype', 'casting')):
+                raise AnalysisError('ufunc called with out= / where= / dtype= not modelled', node)
             a, b = args[0], args[1]
             a = as_vec(interp, a, node) or a
             b = as_vec(interp, b, node) or b
+            dt_unit = None
+            if arith is not None:
+                # the arithmetic ufuncs type their result like the operators do (datetime64 - datetime64 = timedelta64 ...)
+                from .models_np import arith_dtype, dtype_of, note_int_arith
+                note_int_arith(interp, (a, b), node)
+                (da, ua), (db, ub) = dtype_of(a), dtype_of(b)
+                dt_unit = arith_dtype(arith, a, b, node)
+                if 'M8' in (da, db) or 'm8' in (da, db):
+                    if da in ('M8', 'm8') and db in ('M8', 'm8') and (ua or 'ns') != (ub or 'ns'):
+                        raise AnalysisError('ufunc on datetimes of different units not modelled', node)
+                    if dt_unit[0] in ('M8', 'm8'):
+                        dt_unit = (dt_unit[0], (ua if da in ('M8', 'm8') else ub) or 'ns')
             pairs, tmpl = broadcast(interp, a, b, node)
             out = []
             for ea, eb in pairs:
@@ -1228,15 +1255,32 @@ def register(M):
                 return mkbool(e.d) if X.is_formula(e.d) else Sc(e.d)
             kind = result_kind(a, b)
             from .models_np import with_sel
+            if dt_unit is not None:
+                return with_sel(Vec.fresh(out, kind=kind, dtype=out_dtype or dt_unit[0], unit=dt_unit[1]), a, b)
             return with_sel(Vec.fresh(out, kind=kind, dtype=out_dtype or tmpl.dtype, unit=tmpl.unit), a, b)
         return f
 
+    def ma_binary(op):
+        """np.ma.subtract / true_divide ...: the function the masked array's own operator calls"""
+        def f(interp, args, kw, node):
+            if len(args) != 2 or kw:
+                raise AnalysisError('np.ma arithmetic function with extra arguments not modelled', node)
+            a, b = args
+            if not any(isinstance(x, Vec) and x.kind == 'ma' for x in (a, b)):
+                raise AnalysisError('np.ma arithmetic function on unmasked operands (domain masking) not modelled', node)
+            return M.binop(interp, op, a, b, node)
+        return f
+    E['numpy.ma.subtract'] = ma_binary('Sub')
+    E['numpy.ma.add'] = ma_binary('Add')
+    E['numpy.ma.multiply'] = ma_binary('Mult')
+    E['numpy.ma.true_divide'] = E['numpy.ma.divide'] = ma_binary('Div')
+
     E['numpy.minimum'] = E['numpy.fmin'] = binary_ufunc(lambda x, y: X.min_(x, y))
     E['numpy.maximum'] = E['numpy.fmax'] = binary_ufunc(lambda x, y: X.max_(x, y))
-    E['numpy.subtract'] = binary_ufunc(X.sub)
-    E['numpy.add'] = binary_ufunc(X.add)
-    E['numpy.multiply'] = binary_ufunc(X.mul)
-    E['numpy.divide'] = E['numpy.true_divide'] = binary_ufunc(X.div, out_dtype='f8')
+    E['numpy.subtract'] = binary_ufunc(X.sub, arith='Sub')
+    E['numpy.add'] = binary_ufunc(X.add, arith='Add')
+    E['numpy.multiply'] = binary_ufunc(X.mul, arith='Mult')
+    E['numpy.divide'] = E['numpy.true_divide'] = binary_ufunc(X.div, arith='Div')
     E['numpy.logical_and'] = binary_ufunc(X.f_and, out_dtype='b1', boolean=True)
     E['numpy.logical_or'] = binary_ufunc(X.f_or, out_dtype='b1', boolean=True)
     @ext('numpy.isclose')
@@ -1342,8 +1386,24 @@ def register(M):
         vs = [as_vec(interp, p, node) for p in parts]
         if any(v is None for v in vs):
             raise AnalysisError('concatenate of non-arrays', node)
+        if not vs:
+            raise AbsRaise(ExcVal('ValueError', ('need at least one array to concatenate',)), node)
         els = [e for v in vs for e in v.els()]
+        dts = {v.dtype for v in vs}
+        if len(dts) > 1:
+            # numeric promotion of the parts' dtypes
+            if dts <= {'b1', 'u1', 'i8', 'f8'}:
+                dt = 'f8' if 'f8' in dts else ('i8' if 'i8' in dts else 'u1')
+                return vs[0].like(els, dtype=dt)
+            raise AnalysisError(f'concatenate of arrays of dtypes {sorted(dts)} not modelled', node)
         return vs[0].like(els)
+
+    def _append(interp, args, kw, node):
+        """np.append(arr, values): both flattened (numbers are one-element arrays), then concatenated"""
+        if kw.get('axis') is not None or len(args) > 2:
+            raise AnalysisError('np.append(axis=) not modelled', node)
+        arr, values = kwarg(args, kw, 0, 'arr'), kwarg(args, kw, 1, 'values')
+        return _hstack(interp, [[arr, values]], {}, node)
 
     def _hstack(interp, args, kw, node):
         # library fact: hstack passes its parts through atleast_1d, so plain numbers are one-element arrays (concatenate itself refuses 0-d parts)
@@ -1353,6 +1413,7 @@ def register(M):
                  for p in parts]
         return _concat(interp, [parts], kw, node)
     E['numpy.hstack'] = _hstack
+    E['numpy.append'] = _append
 
     @ext('numpy.ma.concatenate', 'numpy.ma.hstack')
     def _ma_concat(interp, args, kw, node):
@@ -1415,8 +1476,105 @@ def register(M):
 
     @ext('numpy.ma.getdata')
     def _getdata(interp, args, kw, node):
-        v = as_vec(interp, args[0], node)
+        v = args[0] if isinstance(args[0], Vec) else as_vec(interp, args[0], node)
+        if v is None:
+            raise AnalysisError('getdata argument not modelled', node)
+        if isinstance(args[0], Vec) and v.kind == 'ma':
+            return v.view(list(v.idx), kind='nd', dview=True)      # library fact: getdata(masked array) is the `.data` view
+        if isinstance(args[0], Vec) and v.kind == 'nd':
+            return v
         return Vec.fresh([El(e.d, False) for e in v.els()], kind='nd', dtype=v.dtype, unit=v.unit)
+
+    def _data_target(a, node, what):
+        """the memory np.putmask / np.copyto / np.place / np.put write: the array's own data (a masked array's mask is left alone - these
+        functions do not go through MaskedArray.__setitem__)"""
+        if not isinstance(a, Vec) or a.kind not in ('nd', 'ma') or a.sel_mask is not None:
+            raise AnalysisError(f'{what} target not modelled', node)
+        return a.view(list(a.idx), kind='nd', dview=(a.kind == 'ma' or a.dview))
+
+    def _bool_mask(interp, m, n, node, what):
+        mv = m if isinstance(m, Vec) else None
+        if mv is None or mv.sel_mask is not None:
+            raise AnalysisError(f'{what} mask that is not an array not modelled', node)
+        if len(mv) != n:
+            raise AnalysisError(f'{what} mask of a different size not modelled', node)
+        return Vec.fresh([El(bool_of_el(e.d), False) for e in mv.els()], kind='nd', dtype='b1')
+
+    def _int_like(v):
+        return isinstance(v, bool) or isinstance(v, int) or (isinstance(v, Fr) and v.denominator == 1) or (isinstance(v, Sc) and v.dtype in ('i8', 'u1', 'b1'))
+
+    def _masked_write(interp, a, mask, values, node, what, cyclic_ok):
+        t = _data_target(a, node, what)
+        n = len(t)
+        mk = _bool_mask(interp, mask, n, node, what)
+        if isinstance(values, (list, tuple)):
+            values = as_vec(interp, values, node)
+        if isinstance(values, Vec):
+            if values.sel_mask is not None:
+                raise AnalysisError(f'{what} of a data-dependent selection not modelled', node)
+            if len(values) == 1:
+                values = Sc(values.el(0).d, values.dtype, values.unit)
+            elif len(values) == n and cyclic_ok:
+                # a.flat[i] = values[i] where mask[i] (values of the same size are taken position by position)
+                from .models_np import IndexSet
+                for i, e in enumerate(mk.els()):
+                    if e.d != X.FALSE:
+                        M.store(interp, t, IndexSet([(i, e.d)]), values.view([values.idx[i]], kind='nd'), node)
+                return None
+            else:
+                raise AnalysisError(f'{what} with a value array of another size not modelled', node)
+        if values is None or as_operand(values) is None:
+            raise AnalysisError(f'{what} value not modelled', node)
+        if t.dtype in ('u1', 'i8', 'b1') and not _int_like(values):
+            raise AnalysisError(f'{what} of a non-integer value into an integer array (casting rule) not modelled', node)
+        M.store(interp, t, mk, values, node)
+        return None
+
+    @ext('numpy.putmask')
+    def _putmask(interp, args, kw, node):
+        """np.putmask(a, mask, values): a.flat[i] = values[i] (scalar: values) where mask[i]; data only"""
+        return _masked_write(interp, kwarg(args, kw, 0, 'a'), kwarg(args, kw, 1, 'mask'), kwarg(args, kw, 2, 'values'), node, 'np.putmask', True)
+
+    @ext('numpy.copyto')
+    def _copyto(interp, args, kw, node):
+        """np.copyto(dst, src, where=mask): dst[i] = src[i] (broadcast) where mask[i]; data only"""
+        if 'casting' in kw:
+            raise AnalysisError('np.copyto(casting=) not modelled', node)
+        dst, src = kwarg(args, kw, 0, 'dst'), kwarg(args, kw, 1, 'src')
+        where = kw.get('where', True)
+        if where is True:
+            if not isinstance(dst, Vec):
+                raise AnalysisError('np.copyto target not modelled', node)
+            where = Vec.fresh([El(X.TRUE, False)] * len(dst), kind='nd', dtype='b1')
+        if isinstance(src, Vec) and len(src) != 1 and src.dtype != getattr(dst, 'dtype', None):
+            raise AnalysisError('np.copyto between arrays of different dtypes (casting rule) not modelled', node)
+        return _masked_write(interp, dst, where, src, node, 'np.copyto', True)
+
+    @ext('numpy.place')
+    def _place(interp, args, kw, node):
+        """np.place(arr, mask, vals): the first N values go to the N selected cells (cyclically): modelled for one value"""
+        return _masked_write(interp, kwarg(args, kw, 0, 'arr'), kwarg(args, kw, 1, 'mask'), kwarg(args, kw, 2, 'vals'), node, 'np.place', False)
+
+    @ext('numpy.put')
+    def _put(interp, args, kw, node):
+        """np.put(a, ind, v): a.flat[ind] = v; modelled for an index set / index array and one value"""
+        if 'mode' in kw:
+            raise AnalysisError('np.put(mode=) not modelled', node)
+        a, ind, v = kwarg(args, kw, 0, 'a'), kwarg(args, kw, 1, 'ind'), kwarg(args, kw, 2, 'v')
+        t = _data_target(a, node, 'np.put')
+        from .models_np import IndexSet
+        if isinstance(v, Vec) and len(v) == 1:
+            v = Sc(v.el(0).d, v.dtype, v.unit)
+        if isinstance(v, Vec) or v is None or as_operand(v) is None:
+            raise AnalysisError('np.put value not modelled', node)
+        if t.dtype in ('u1', 'i8', 'b1') and not _int_like(v):
+            raise AnalysisError('np.put of a non-integer value into an integer array not modelled', node)
+        if not isinstance(ind, IndexSet) and not (isinstance(ind, Vec) and ind.dtype in ('i8', 'u1') and ind.sel_mask is None):
+            raise AnalysisError('np.put index not modelled', node)
+        if isinstance(ind, Vec) and len(ind) == 0:
+            return None
+        M.store(interp, t, ind, v, node)
+        return None
 
     @ext('numpy.ma.where')
     def _ma_where(interp, args, kw, node):
